@@ -454,6 +454,32 @@ def bounded_sort(s):
         except Exception as e:
             fails.append({"witness_id": "sort:%d" % t, "input": {"dim": dim, "complex": bool(cplx)}, "observed": "raises %r" % (e,), "expected": "sorted items"})
             break
+        # the same call with numpy arrays handed over (the caller keeps them): inputs must come back unchanged, and a second sort against the
+        # same base array (another permutation of it) must be right as well
+        base_a, target_a = numpy.array(base), numpy.array(target)
+        base_0, target_0 = base_a.copy(), target_a.copy()
+        perm2 = rnd.permutation(dim)
+        target2 = numpy.array(phases[:, None] * base[perm2] + pert * noise)
+        try:
+            out_a = es.evec_sort(list(items), target_a, base_a)
+            out_b = es.evec_sort(list(items), target2, base_a)
+        except Exception as e:
+            fails.append({"witness_id": "sort-ndarray:%d" % t, "input": {"dim": dim, "complex": bool(cplx), "inputs": "numpy arrays"}, "observed": "raises %r" % (e,), "expected": "sorted items"})
+            break
+        evals += 2
+        if not (numpy.array_equal(base_a, base_0) and numpy.array_equal(target_a, target_0)):
+            fails.append({"witness_id": "sort-frame:%d" % t, "input": {"dim": dim, "complex": bool(cplx), "inputs": "numpy arrays"},
+                          "observed": "evec_sort writes into the arrays it was given", "expected": "inputs unchanged"})
+            break
+        want2 = [None] * dim
+        for j in range(dim):
+            want2[perm2[j]] = items[j]
+        if out_a != out or out_b != want2:
+            fails.append({"witness_id": "sort-reuse:%d" % t, "input": {"dim": dim, "complex": bool(cplx), "inputs": "numpy arrays, base array reused for a second sort"},
+                          "observed": "first call %s the list-input result; second call has %d misplaced items" % ("equals" if out_a == out else "differs from",
+                                                                                                                  sum(1 for a_, b_ in zip(out_b, want2) if a_ != b_)),
+                          "expected": "item j at the index of its dominant base vector in both calls"})
+            break
         if sorted(out, key=str) != sorted(items, key=str):
             fails.append({"witness_id": "sort-perm:%d" % t, "input": {"dim": dim, "complex": bool(cplx)}, "observed": "result is not a permutation of the input", "expected": "permutation"})
             break
